@@ -26,6 +26,7 @@ def rd(name):
 def profile():
     return opaque_profile(
         types={
+            'QXmppConfiguration': 'qcfg',      # the client's configuration object (a change may bind it to a local reference): only its getters are used
             'QXmppRosterManager': 'QXmppRosterManager',
             'QXmppRosterManagerPrivate': 'QXmppRosterManagerPrivate',
             'std::unique_ptr<QXmppRosterManagerPrivate>': 'QXmppRosterManagerPrivate*',
@@ -58,6 +59,9 @@ def profile():
             # the client and its configuration: pure getters (ASSUMED)
             '*::client/0': ('const', 'gh_client'),
             '*::jidBare/0': ('const', 'gh_cfg_jidBare'),
+            # further getters of the configured account a changed sender check may consult: opaque values nothing relates to the bare JID
+            '*::configuration/0': ('const', '0'),
+            '*::domain/0': ('const', 'gh_cfg_domain'), '*::user/0': ('const', 'gh_cfg_user'), '*::jid/0': ('const', 'gh_cfg_jid'),
             'QXmppClient::streamManagementState/0': ('expr', 'gh_sm_state'),
             'QXmppClient::isAuthenticated/0': ('expr', 'gh_authenticated'),
             'QXmppClient::sendPacket/1': ('fn', 'QXmppClient_sendPacket'),
@@ -118,7 +122,7 @@ def profile():
             'expr:LambdaExpr': lambda lw, n: 'LAMBDA_ROSTER_RESULT',
             'fn:get_if/1': ('fn', 'RosterResult_get_if_iq'),
         },
-        pure_fns={'client', 'configuration', 'jidBare'},
+        pure_fns={'client', 'configuration', 'jidBare', 'domain', 'user', 'jid'},
     )
 
 
@@ -188,7 +192,7 @@ def build(work, tier):
     rec_m, _ = ctx.emit_record(src, M, M, M, prof, opaque_ok=True)
     ctxt = b.context()
     head = '#include "opaque.h"\n' + prof.literal_ids.table() + ctxt + '\n' + b.subst(rd('model.h')) + rec_p + '\n' + rec_m + '\n' + b.subst(rd('events.h'))
-    havoc = ('g_j = nondet_qstr(); g_b = nondet_qstr(); g_r = nondet_qstr(); gh_cfg_jidBare = nondet_qstr(); gh_sm_state = nondet_int(); '
+    havoc = ('g_j = nondet_qstr(); g_b = nondet_qstr(); g_r = nondet_qstr(); gh_cfg_jidBare = nondet_qstr(); gh_cfg_domain = nondet_qstr(); gh_cfg_user = nondet_qstr(); gh_cfg_jid = nondet_qstr(); gh_sm_state = nondet_int(); '
              'gh_authenticated = nondet_bool(); gh_roster_task = nondet_int();')
     proofs = []
     alltext = [head]
